@@ -467,9 +467,12 @@ def clause_length_before_decode(prog, rep):
             if c.name == "decode" and c.krate == "hex" and c.args and "p" in c.args[0]:
                 og = A.origins(prog, f, c.args[0]["p"][0], scope=None, max_frames=0)
                 if not og.has_call(lambda x: x.name == "content" and last_seg(x.self_adt) == "Tag"):
-                    continue
+                    # the decode may live in a helper that is handed the tag's content (`.and_then(decode_nostr_group_id_hex)`)
+                    og = A.origins(prog, f, c.args[0]["p"][0], scope=core, max_frames=2)
+                    if not og.has_call(lambda x: x.name == "content" and last_seg(x.self_adt) == "Tag"):
+                        continue
                 root = prog.fns.get(f.root, f)
-                if not any(True for _ in root.aggregates("Error", "InvalidGroupIdFormat")) and not any(True for g in prog.closures_of.get(root.path, []) for _ in g.aggregates("Error", "InvalidGroupIdFormat")):
+                if not any(True for g in prog.family(root) for _ in g.aggregates("Error", "InvalidGroupIdFormat")):
                     continue
                 n += 1
                 rep.check(len_checked(f, c.bb, c.args[0]["p"][0]), "length-before-decode", "h-tag/hex-decode",
